@@ -914,18 +914,34 @@ def check_linked_data(ctx):
     src = [s for s in fv.statements() if isinstance(s, ast.Assign) and U(s.targets[0]) == arr and U(s.value) == "self.data"]
     loops = [s for s in fv.statements() if isinstance(s, ast.For)]
     ok_link = False
+    as_record = None
     if len(loops) == 1 and len(loops[0].body) == 1 and isinstance(loops[0].body[0], ast.Assign):
         lp = loops[0]
         st = lp.body[0]
-        tgt, val = U(st.targets[0]), U(st.value)
+        tgt = U(st.targets[0])
+        # the bound row, with temporaries resolved: <arr>[i] or <arr>.view(np.recarray)[i]
+        val = U(fv.expand(st.value, st, stop=(arr or "",))).replace(" ", "")
+        plain, rec = f"{arr}[%s]", (f"{arr}.view(np.recarray)[%s]", f"{arr}.view(type=np.recarray)[%s]", f"np.rec.array({arr},copy=False)[%s]")
+        i = d = None
         if U(lp.iter) == "enumerate(self)" and isinstance(lp.target, ast.Tuple):
             i, d = (U(e) for e in lp.target.elts)
-            ok_link = tgt == f"{d}.data" and val == f"{arr}[{i}]"
+            want_t = f"{d}.data"
         elif U(lp.iter) == "range(len(self))":
             i = U(lp.target)
-            ok_link = tgt == f"self[{i}].data" and val == f"{arr}[{i}]"
+            want_t = f"self[{i}].data"
+        if i is not None:
+            ok_link = tgt == want_t and (val == plain % i or val in [r % i for r in rec])
+            if ok_link:
+                as_record = val != plain % i
     ctx.decide(len(src) == 1 and ok_link, "LINK", fi.qualname, fi, "row i of the returned array becomes the storage of member i",
                "get_linked_data does not bind member i to row i of the single array it returns")
+    if as_record is not None:
+        # numpy contract: a row of a plain structured ndarray is a numpy.void (item access only) unless the dtype object itself carries
+        # numpy.record, which np.array([...]) keeps only when all members share the identical dtype object; the merge kernels and the
+        # setters of the droplet classes use attribute access on their record
+        ctx.decide(as_record, "LINK", fi.qualname + ":record", fi, "members are bound to rows of a record-array view (attribute access works on them)",
+                   "members are bound to rows of the plain structured array: for droplets created by separate constructor calls these rows are numpy.void objects without attribute access, "
+                   "so `merge` (in place or not) raises AttributeError after get_linked_data — link data, then merge members is a sequence C20 names")
 
 
 def check_order_free(ctx, quals=(f"{EM}.EmulsionTimeCourse.get_emulsion", f"{EM}.Emulsion.get_size_statistics", f"{EM}.Emulsion.total_droplet_volume", f"{TR}.DropletTrack.get_position")):
